@@ -51,7 +51,7 @@ def main():
                      'cmake --build _build -j16 2>&1 | tail -3 && _build/tests/core/test_core 2>&1 | tail -2 && _build/tests/cpu/test_cpu 2>&1 | tail -2', cwd=wt)
         meta['suite_passes_with_change'] = rc == 0 and out.count('PASSED') >= 2 and 'FAILED' not in out
         meta['ran'].append('suite with change: ' + ' / '.join(l.strip() for l in out.strip().split('\n')[-4:]))
-        cc = f'g++ -std=c++20 -O1 -I{wt}/lib/core -I{wt}/lib/cpu {demo} -o {wt}/demo_bin'
+        cc = f'g++ -std=c++20 -O1 -pthread -I{wt}/lib/core -I{wt}/lib/cpu {demo} -o {wt}/demo_bin'
         rc, out = sh(cc + f' && {wt}/demo_bin', cwd=wt, timeout=600)
         meta['demo_fails_with_change'] = rc != 0
         meta['ran'].append(f'demo with change: exit {rc}: ' + out.strip()[-300:])
